@@ -40,7 +40,8 @@
                                         middle of the write renames the truncated `.new` over the last
                                         good snapshot; `finallyReplace_same_ops`: its kill states and its
                                         undisturbed path are those of the current code.
-  Found on the unchanged tree (known finding `autosave-suffix-new-in-place`):
+  Found on the tree before 8d35338 (finding A1-C27 `autosave-suffix-new-in-place`, now fixed:
+  `appended_temp_name_distinct` — the appended temporary name differs from every advertised name):
     * `aliased_counterexample`        – a back-end resumed from a file whose suffix is `.new` has
                                         `with_suffix(".new") == autosave_file`: autosaves are written in
                                         place and a crash inside the write truncates the advertised file.
@@ -169,6 +170,15 @@ theorem aliased_counterexample :
   have := h ⟨.complete 1, .absent, .absent⟩ 1 2 rfl ⟨.part, .absent, .absent⟩ (by decide)
   revert this
   decide
+
+/-- The repair of that finding (8d35338): the temporary name is built by APPENDING `".new"` to the file
+name (`basename.with_name(basename.name + ".new")`), so it differs from the advertised name for every
+advertised name — the abstract names `base` and `new` of the model are distinct files again, whatever the
+file passed to `resume` is called (`with_suffix(".new")` is the identity on names ending in `.new`). -/
+theorem appended_temp_name_distinct (name : String) : name ++ ".new" ≠ name := by
+  intro h
+  have := congrArg String.length h
+  simp [String.length_append] at this
 
 /-! ### The three-step variant (before commit 3262c67) -/
 
